@@ -196,10 +196,55 @@ pub fn bodies() -> Vec<(&'static str, Vec<u8>)> {
     let nonmap = br#"[1,2,3]"#.to_vec();
     // a byte that is not UTF-8 inside a string value (a recogniser that skips values need not
     // validate it; whatever each entry point says, reader and slice must say the same)
+    // base64 of ">>>???~~~" at three alignments contains '+' and '/'
+    let plus = br#"{"version":3,"file":">>>???~~~ >>>???~~~  >>>???~~~","sources":["a.js"],"names":[],"mappings":"AAAA"}"#.to_vec();
     let mut stray = br#"{"version":3,"file":"?","sources":["a.js"],"names":[],"mappings":"AAAA"}"#.to_vec();
     let at = stray.iter().position(|&b| b == b'?').unwrap();
     stray[at] = 0xE9;
-    vec![("regular", regular), ("index", index), ("hermes", hermes), ("truncated", truncated), ("corrupted-mapping", corrupted), ("non-map-json", nonmap), ("stray-byte-in-a-string", stray)]
+    vec![("regular", regular), ("index", index), ("hermes", hermes), ("truncated", truncated), ("corrupted-mapping", corrupted), ("non-map-json", nonmap), ("stray-byte-in-a-string", stray), ("base64-with-plus-and-slash", plus)]
+}
+
+/// A reader that is interrupted once: the read that would start at byte `at` first answers
+/// `ErrorKind::Interrupted` (a legal, retryable answer), then the stream goes on in 3-byte reads.
+struct InterruptedOnce<'a> {
+    data: &'a [u8],
+    pos: usize,
+    at: usize,
+    done: bool,
+}
+impl Read for InterruptedOnce<'_> {
+    fn read(&mut self, buf: &mut [u8]) -> std::io::Result<usize> {
+        if self.pos == self.at && !self.done {
+            self.done = true;
+            return Err(std::io::Error::new(std::io::ErrorKind::Interrupted, "interrupted"));
+        }
+        if buf.is_empty() || self.pos >= self.data.len() {
+            return Ok(0);
+        }
+        let stop = if self.pos < self.at { self.at } else { self.data.len() };
+        let n = (stop - self.pos).min(buf.len()).min(3);
+        buf[..n].copy_from_slice(&self.data[self.pos..self.pos + n]);
+        self.pos += n;
+        Ok(n)
+    }
+}
+
+fn check_interrupted(data: &[u8], at: usize) -> Option<Viol> {
+    let case = json!({"data": data, "interrupted_at": at, "text": String::from_utf8_lossy(data)});
+    let slice_obs = obs_result(&decode_slice(data));
+    let slice_is = sourcemap::is_sourcemap_slice(data);
+    match guarded(|| (obs_result(&decode(InterruptedOnce { data, pos: 0, at, done: false })), sourcemap::is_sourcemap(InterruptedOnce { data, pos: 0, at, done: false }))) {
+        Err(p) => Some(Viol::new(format!("C12/reader/panic/{}", panic_class(&p)), format!("panicked with an interrupted read at {at}: {p}"), case)),
+        Ok((got, is)) => {
+            if got != slice_obs {
+                Some(Viol::new("C12/reader-vs-slice/after-an-interrupted-read", format!("stream {:?}, read at byte {at} interrupted once and retried\ndecode(reader) = {got}\ndecode_slice   = {slice_obs}", String::from_utf8_lossy(data)), case))
+            } else if is != slice_is {
+                Some(Viol::new("C12/is_sourcemap/reader-vs-slice/after-an-interrupted-read", format!("stream {:?}, read at byte {at} interrupted once: is_sourcemap(reader) = {is}, is_sourcemap_slice = {slice_is}", String::from_utf8_lossy(data)), case))
+            } else {
+                None
+            }
+        }
+    }
 }
 
 pub fn run(run: &mut Run) -> Finish {
@@ -209,7 +254,7 @@ pub fn run(run: &mut Run) -> Finish {
     let bods = bodies();
     let nb = bods.len() as u64;
 
-    run.par_slice("every header of length <= 4/6 over {) ] } ' x \\r \\n { 0xC3} x 7 bodies x every composition of the first len(header)+3 bytes (remainder in one read)", 1, nh * nb, |idx, l| {
+    run.par_slice("every header of length <= 4/6 over {) ] } ' x \\r \\n { 0xC3} x 8 bodies x every composition of the first len(header)+3 bytes (remainder in one read)", 1, nh * nb, |idx, l| {
         let k = idx & ((1 << 40) - 1);
         let header: Vec<u8> = crate::spaces::seq_upto_unrank(9, hmax, k / nb).iter().map(|&i| HALPHA[i]).collect();
         let mut data = header.clone();
@@ -255,7 +300,7 @@ pub fn run(run: &mut Run) -> Finish {
     special.push(&long_b);
     special.push(&long_c);
     let ns = special.len() as u64;
-    run.par_slice("canonical/irregular headers x 7 bodies: every uniform chunk size 1..=16 and every choice of <= 2 cut points anywhere", 3, ns * nb, |idx, l| {
+    run.par_slice("canonical/irregular headers x 8 bodies: every uniform chunk size 1..=16 and every choice of <= 2 cut points anywhere", 3, ns * nb, |idx, l| {
         let k = idx & ((1 << 40) - 1);
         let mut data = special[(k / nb) as usize].to_vec();
         data.extend_from_slice(&bods[(k % nb) as usize].1);
@@ -297,7 +342,7 @@ pub fn run(run: &mut Run) -> Finish {
     });
 
     // data URLs
-    run.seq_slice("data URLs: both preambles x 7 bodies x junk header or not", 4, |base, l| {
+    run.seq_slice("data URLs: both preambles x 8 bodies x junk header or not", 4, |base, l| {
         for (i, (_, body)) in bods.iter().enumerate() {
             for pre in ["data:application/json;base64,", "data:application/json;charset=utf-8;base64,"] {
                 for hdr in [&b""[..], b")]}'\n"] {
@@ -320,6 +365,37 @@ pub fn run(run: &mut Run) -> Finish {
         }
     });
 
+    // an interrupted (retryable) read at every position of every canonical stream
+    {
+        let heads: [&[u8]; 6] = [b"", b")]}'\n", b")]}'\r\n", b")]}\n", b")]}'garbage\n", b"}\r\n"];
+        let bods = bodies();
+        let mut streams: Vec<Vec<u8>> = vec![];
+        for h in heads {
+            for (_, b) in &bods {
+                let mut d = h.to_vec();
+                d.extend_from_slice(b);
+                streams.push(d);
+            }
+        }
+        let total: u64 = streams.iter().map(|d| d.len() as u64 + 1).sum();
+        let mut starts = vec![];
+        let mut acc = 0u64;
+        for d in &streams {
+            starts.push(acc);
+            acc += d.len() as u64 + 1;
+        }
+        run.par_slice("interrupted reads: 6 headers x 8 bodies, the read at every byte position answers ErrorKind::Interrupted once and is retried", 6, total, |idx, l| {
+            let k = idx & ((1 << 40) - 1);
+            let si = starts.iter().rposition(|&s| s <= k).unwrap();
+            let at = (k - starts[si]) as usize;
+            if let Some(v) = check_interrupted(&streams[si], at) {
+                l.violation(idx, v);
+            }
+            l.traces += 1;
+            l.transitions += 2;
+            l.case(at > 0, h64(&("int", si, at.min(12))));
+        });
+    }
     Finish {
         level: "model_checking",
         rule: "E2 exhaustive exploration of read schedules on the real reader stack (StripHeaderReader -> BufReader -> serde_json). A harness reader returns exactly the bytes up to the next cut per read call. For every stream (header over an 8-byte alphabet x body) every schedule of the stated family is executed; decode(reader) is compared with decode_slice (both error, or equal observations), is_sourcemap(reader) with is_sourcemap_slice, and both with an independent reading of the junk-header rule. states = distinct (stream, read boundary, header-automaton state at that boundary); transitions = read calls served; traces = complete schedules, all executed on the implementation.".into(),
@@ -344,6 +420,9 @@ pub fn recheck(case: &Value) -> Vec<Viol> {
         };
     }
     let data: Vec<u8> = case["data"].as_array().map(|a| a.iter().filter_map(|v| v.as_u64().map(|b| b as u8)).collect()).unwrap_or_default();
+    if let Some(at) = case["interrupted_at"].as_u64() {
+        return check_interrupted(&data, at as usize).into_iter().collect();
+    }
     let cuts: Vec<usize> = case["cuts"].as_array().map(|a| a.iter().filter_map(|v| v.as_u64().map(|b| b as usize)).collect()).unwrap_or_default();
     let (exp, _) = expected(&data);
     let slice = match guarded(|| decode_slice(&data)) {
